@@ -301,9 +301,9 @@ class Emitter:
             if et in self.cfg.get("enum_rename", {}):
                 # "enum_rename": {qualified enum type: C prefix} keeps apart two enums with the same last name
                 cn = self.cfg["enum_rename"][et] + "__" + name
-            elif cn in self.enum_consts and self.enum_consts[cn][0] != et:
-                raise Unsupported("enum constants %s::%s and %s::%s get the same C name %s (add enum_rename)" %
-                                  (self.enum_consts[cn][0], name, et, name, cn))
+            elif self.enum_consts.get(cn, (et, name)) != (et, name):
+                # same-named constant of two enums with the same last name (e.g. Action::State / activity::State)
+                cn = ident("_".join(et.split("::")[-2:])) + "__" + name
             self.enum_consts[cn] = (et, name)
             return cn
         if kind in ("ParmVarDecl", "VarDecl", "BindingDecl"):
